@@ -173,6 +173,7 @@ ModelCheck(pre, c, m, tainted) ==
   IF m.err # "" THEN "NoInternalError:" \o m.err
   ELSE IF ~WellFormed(m) THEN "WellFormed"
   ELSE IF ~CountersConsistent(m) THEN "CountersConsistent"
+  ELSE IF ~m.deferred /\ NeedsGC(m) THEN "ImmediateModeHasNoPendingDeletions"   \* leaving deferred mode collects
   ELSE IF ~StepRel(pre, c, m, m.ret, ModelMap(m)) THEN "StepRel"
   ELSE IF IsDelete(c) /\ IterFrom(DelFlagsOf(m, c), m.ret) # DeleteRetExpected(pre, c, m) THEN "DeleteRet"
   ELSE IF ~ModelPropsAligned(pre, m) THEN "PropsAligned"
